@@ -111,8 +111,11 @@ REF_STEPS_CROSS = 300      # ... for recursive definite programs (the least mode
 
 # ProbLogError classes that the statement does not cover (see report): the reference has already
 # excluded the situations they are meant for, a remaining one is counted, never reported.
+# CallModeError: an ill-moded builtin call (findall/3 with a non-list third argument) somewhere in the search
+# space; Prolog raises a type error too if it gets there, but may never get there because \\+ and the first
+# solution commit early while ProbLog's tabled evaluation visits every clause.
 ERRORS_OUTSIDE = ("UnknownClause", "IndirectCallCycleError", "NegativeCycle", "NonGroundQuery",
-                  "NonGroundProbabilisticClause")
+                  "NonGroundProbabilisticClause", "CallModeError")
 
 
 # ---------------------------------------------------------------------------------------------
@@ -1015,7 +1018,7 @@ class C13(Prop):
         "Prolog's answers when the SLD tree is finite within the step bound, otherwise unjudged",
         "\\+ on a goal that is not ground at call time, recursion through findall/3 or \\+, undefined predicates "
         "and reference step-bound hits are outside the statement: skipped and counted",
-        "ProbLogError classes UnknownClause / IndirectCallCycleError / NegativeCycle / NonGround* on a judged "
+        "ProbLogError classes UnknownClause / IndirectCallCycleError / NegativeCycle / NonGround* / CallModeError on a judged "
         "program are counted as unjudged; crashes and timeouts are counted (C27), not reported here",
     ]
     budget = {"quick": 600, "thorough": 2400}
